@@ -104,6 +104,24 @@ theorem add_inv {s s' : LocH ν} {n : ν} {k : Option Int} {u : Bool} (hi : Inv 
                 subst h
                 exact ⟨inv_push hi hn (by simpa using hfree) (by omega) (by omega), rfl⟩
 
+theorem addAll_inv {s s' : LocH ν} (l : List (ν × Int)) (hi : Inv s) (h : s.addAll l = .ok s') :
+    Inv s' ∧ s'.nLocs = s.nLocs := by
+  induction l generalizing s with
+  | nil =>
+    simp only [addAll] at h
+    injection h with h
+    subst h
+    exact ⟨hi, rfl⟩
+  | cons p rest ih =>
+    obtain ⟨n, k⟩ := p
+    simp only [addAll] at h
+    split at h
+    · rename_i s1 h1
+      obtain ⟨i1, e1⟩ := add_inv hi h1
+      obtain ⟨i2, e2⟩ := ih i1 h
+      exact ⟨i2, e2.trans e1⟩
+    · cases h
+
 theorem apply_inv {s s' : LocH ν} {op : LocOp ν} (hi : Inv s) (h : s.apply op = .ok s') :
     Inv s' ∧ s'.nLocs = s.nLocs := by
   cases op with
